@@ -131,6 +131,7 @@ def run_history(wd, cfg, history, off, keep_as=None):
             return (-1, 'create', 'create_failed', None, {'raised': repr(out[1])}), info
         m.create(io.cfg_header(cfg), False)
         cur = w
+        older = []  # handles opened earlier on the same file and still alive (at most two are kept)
         k_app = 0
         toggles = 0
         for step, op in enumerate(history):
@@ -151,6 +152,7 @@ def run_history(wd, cfg, history, off, keep_as=None):
                     return (step, op, 'reopen_raised', None, {'raised': repr(out[1])}), info
                 if after != before:
                     return (step, op, 'reopen_changed_file', None, {}), info
+                older = (older + [cur])[-2:]
                 cur = out[1]
             elif op == 'R':
                 out, before, after = hist.do(op, lambda: io.verify(cur, m.header, m.records))
@@ -158,6 +160,12 @@ def run_history(wd, cfg, history, off, keep_as=None):
                     raise out[1]
                 if out[1] is not None:
                     return (step, op, out[1][0], out[1][1], out[1][2]), info
+                # every handle that is still alive reads the same file: it must report the same content
+                for j, h_old in enumerate(older):
+                    bad = io.verify(h_old, m.header, m.records)
+                    if bad:
+                        bad[2]['reader'] = f'handle opened {len(older) - j} re-open(s) earlier, still alive'
+                        return (step, op, bad[0], bad[1], bad[2]), info
                 if after != before:
                     return (step, op, 'read_changed_file', None, {}), info
             elif op == 'N':
@@ -182,6 +190,7 @@ def run_history(wd, cfg, history, off, keep_as=None):
                     return (step, op, 'permitted_overwrite_raised', None, {'raised': repr(out[1])}), info
                 m.create(io.cfg_header(new_cfg), True)
                 cur, cur_cfg = w2, new_cfg
+                older = []  # handles of the replaced file are not the property's subject
             else:
                 raise ValueError(op)
         # final read-back: current handle, then both re-opening routes
@@ -190,6 +199,11 @@ def run_history(wd, cfg, history, off, keep_as=None):
         if bad:
             bad[2]['reader'] = 'current handle'
             return (len(history), last_op, bad[0], bad[1], bad[2]), info
+        for j, h_old in enumerate(older):
+            bad = io.verify(h_old, m.header, m.records)
+            if bad:
+                bad[2]['reader'] = f'handle opened {len(older) - j} re-open(s) earlier, still alive'
+                return (len(history), last_op, bad[0], bad[1], bad[2]), info
         bad = io.verify_file(path, m.header, m.records)
         if bad:
             return (len(history), last_op, bad[0], bad[1], bad[2]), info
